@@ -106,7 +106,7 @@ SPECS["C06"] = {
     "thorough": [K("ktree", 3, 3, KA + ",o_get", audit=1), K("ktree", 3, 3, KA + ",o_get", tbase=252), K("ktree", 5, 1, "get,o_get"), F("ktree", "fl,fle,fleby,get,o_get"), K("ktree", 4, 4, KA + ",o_get"), K("ktree", 5, 2, KA + ",o_get", cap_s=900), K("ktree", 3, 3, KA + ",o_get", mode="full"), K("ktree", 9, 1, "get,clear,o_get", mode="shape", cap_s=900)],
 }
 SPECS["C07"] = {
-    "quick": [K("ktree", 3, 3, KA + ",o_export", tbase=252), K("klist", 3, 3, KA + ",o_export", tbase=252), F("ktree", "fl,fle,fleby,get,o_export"), F("klist", "fl,fle,fleby,get,o_export"), K("ktree", 3, 3, KA + ",o_export", tbase=251), K("klist", 3, 3, KA + ",o_export", tbase=251), K("ktree", 4, 2, KA + ",o_export"), K("ktree", 3, 3, KA + ",o_export"), K("klist", 3, 3, KA + ",o_export"), K("ktree", 3, 2, KA + ",o_export", mode="full")],
+    "quick": [K("ktree", 8, 0, "fleby,clear,o_export", mode="shape"), K("ktree", 3, 3, KA + ",o_export", tbase=252), K("klist", 3, 3, KA + ",o_export", tbase=252), F("ktree", "fl,fle,fleby,get,o_export"), F("klist", "fl,fle,fleby,get,o_export"), K("ktree", 3, 3, KA + ",o_export", tbase=251), K("klist", 3, 3, KA + ",o_export", tbase=251), K("ktree", 4, 2, KA + ",o_export"), K("ktree", 3, 3, KA + ",o_export"), K("klist", 3, 3, KA + ",o_export"), K("ktree", 3, 2, KA + ",o_export", mode="full")],
     "thorough": [K("ktree", 3, 3, KA + ",o_export", tbase=252), K("klist", 3, 3, KA + ",o_export", tbase=252), F("ktree", "fl,fle,fleby,get,o_export"), F("klist", "fl,fle,fleby,get,o_export"), K("ktree", 4, 4, KA + ",o_export", cap_s=1200), K("klist", 4, 4, KA + ",o_export"), K("ktree", 3, 3, KA + ",o_export", mode="full"), K("ktree", 8, 0, "fleby,clear,o_export", mode="shape")],
 }
 SPECS["C19"] = {
